@@ -11,10 +11,11 @@ import (
 
 var c03Profile = &kvh.GenProfile{
 	Weights: map[string]int{
-		"put": 50, "del": 12, "batch": 16, "sync": 6, "merge": 3, "get": 1,
+		"put": 50, "del": 12, "batch": 16, "sync": 6, "merge": 3, "get": 1, "reopen": 3,
 	},
 	MaxBatchOps: 5,
 	Big:         true,
+	ReopenSame:  true,
 	OptProfile:  kvh.OptProfile{NoMMap: true, FileSizes: []int64{200, 1000, 4096, 40000, 1 << 20, 1 << 20}},
 }
 
